@@ -25,7 +25,8 @@ pub mod core {
         pub use ::core::sync::*;
         pub mod atomic {
             pub use crate::atomic::{
-                fence, AtomicBool, AtomicU16, AtomicU32, AtomicU64, AtomicU8, AtomicUsize,
+                fence, AtomicBool, AtomicI16, AtomicI32, AtomicI64, AtomicI8, AtomicIsize, AtomicPtr, AtomicU16, AtomicU32,
+                AtomicU64, AtomicU8, AtomicUsize,
             };
             pub use ::core::sync::atomic::*;
         }
@@ -54,7 +55,8 @@ pub mod std {
         pub use loom::sync::{Mutex, MutexGuard};
         pub mod atomic {
             pub use crate::atomic::{
-                fence, AtomicBool, AtomicU16, AtomicU32, AtomicU64, AtomicU8, AtomicUsize,
+                fence, AtomicBool, AtomicI16, AtomicI32, AtomicI64, AtomicI8, AtomicIsize, AtomicPtr, AtomicU16, AtomicU32,
+                AtomicU64, AtomicU8, AtomicUsize,
             };
             pub use ::std::sync::atomic::*;
         }
